@@ -25,6 +25,7 @@ func init() {
 			c.run("C13-R6", "FRESH: pumps read into a fresh buffer every iteration", c13R6)
 			c.run("C13-R7", "PAIR: every exit of the handshake worker flushes", c13R7)
 			c.run("C13-S1", "shared with C03-R2/R3: the handshake line readers consume exactly the bytes of the line they return, so the flush hands on the rest", func(c *Ctx) { c03R2(c); c03R3(c) })
+			c.run("C13-S2", "shared with C14-R7: every chunk popped by the flush is forwarded as it is before the next pop (a merged or copied buffer is not the chunk; the relay never loses or duplicates parked bytes)", c14R7)
 		})
 }
 
@@ -278,18 +279,30 @@ func c13R2(c *Ctx) {
 		// `for buf := pop(); buf != nil; buf = pop()` (a phi of two pops of the same buffer)
 		var pc *ssa.Call
 		src := ""
-		for _, l := range origins(s.X, originOpts{}) {
-			lc, _ := callOf(l.V)
+		okAll := true
+		var popsOf func(v ssa.Value, depth int)
+		popsOf = func(v ssa.Value, depth int) {
+			if ph, isPhi := v.(*ssa.Phi); isPhi && depth < 4 {
+				for _, e := range ph.Edges {
+					popsOf(e, depth+1)
+				}
+				return
+			}
+			lc, _ := v.(*ssa.Call)
 			if lc == nil || calleeID(&lc.Call) != "(*trzsz.trzszBuffer).popBuffer" {
-				pc = nil
-				break
+				okAll = false // anything made from a popped chunk (a merged / copied / re-sliced buffer) is not the chunk
+				return
 			}
 			_, lsrc, _ := fieldOf(lc.Call.Args[0])
 			if pc != nil && lsrc != src {
-				pc = nil
-				break
+				okAll = false
+				return
 			}
 			pc, src = lc, lsrc
+		}
+		popsOf(s.X, 0)
+		if !okAll {
+			pc = nil
 		}
 		if pc == nil {
 			c.bad("flush/send-value", c.ipos(s), "flush sends something that is not a popped chunk")
